@@ -1,5 +1,6 @@
 import ClaripyProofs.Lemmas.AST.RulesSound2
 import ClaripyProofs.Lemmas.AST.FoldSound
+import ClaripyProofs.Lemmas.AST.ACNormSound
 /-!
 # C01 — bit-vector and Boolean expressions mean exactly what the written operations say
 
@@ -45,6 +46,30 @@ SMT-LIB value of the node — at every width, for all constants. -/
 theorem C01_fold_sound (op : Op) (hp : Proven op = true) (vs : List CVal) (hwt : Claripy.Props.C04.WT op vs)
     (hvs : ∀ v ∈ vs, v.Canon) (c : CVal) (h : foldOp op vs = .ok c) : applyOp op (vs.map CVal.toVal) = c.toVal :=
   foldOp_sound op hp vs hwt hvs c h
+
+/-- Rewrites of the associative-commutative n-ary nodes (`__add__ __mul__ __and__ __or__ __xor__`: flattening of nested
+nodes, any reordering, merging of literals, cancelling equal `__xor__` operands, dropping repeated `__and__`/`__or__`
+operands — what `_flatten_simplifier` and its filters do): a rewrite accepted by the executable certificate check
+`acEquiv` preserves the value of a well-typed node.  Every width, every number of operands, every nesting depth.
+The correspondence check runs `acEquiv` on each such rewrite the real constructor performs. -/
+theorem C01_ac_rewrite_sound (k : ACK) (w : Nat) (lhs rhs : Expr) (h : acEquiv k w lhs rhs = true) (env : Env) (n : Nat)
+    (hl : eval env lhs = .bv w n) : eval env rhs = eval env lhs := acEquiv_sound k w lhs rhs h env n hl
+
+/-- the same with the width the node reports (what the driver passes) -/
+theorem C01_ac_rewrite_sound_width (k : ACK) (w : Nat) (lhs rhs : Expr) (hw : lhs.width = some w)
+    (h : acEquiv k w lhs rhs = true) (env : Env) (w' n : Nat) (hl : eval env lhs = .bv w' n) :
+    eval env rhs = eval env lhs := by
+  have := Claripy.Props.C05.eval_width env lhs w' n hl
+  rw [hw] at this
+  cases this
+  exact acEquiv_sound k w lhs rhs h env n hl
+
+/-- the check is not vacuous: it accepts `(a ^ b) ^ (b ^ a) ⇒ 0` and `(a + 3) + (5 + b) ⇒ a + b + 8`, and rejects `a + b ⇒ a + c` -/
+example : acEquiv .bxor 8 (.app .bxor [.app .bxor [.bvs "a" 8, .bvs "b" 8], .app .bxor [.bvs "b" 8, .bvs "a" 8]]) (.bvv 0 8) = true := by
+  decide
+example : acEquiv .add 8 (.app .add [.app .add [.bvs "a" 8, .bvv 3 8], .app .add [.bvv 5 8, .bvs "b" 8]])
+    (.app .add [.bvs "a" 8, .bvs "b" 8, .bvv 8 8]) = true := by decide
+example : acEquiv .add 8 (.app .add [.bvs "a" 8, .bvs "b" 8]) (.app .add [.bvs "a" 8, .bvs "c" 8]) = false := by decide
 
 /-- The complete property for the model: any constructor (`build`) returning `e` for a well-typed written
 tree `t` satisfies `eval env e = eval env t`.  Not proved in full: `build` is not modelled as one function;
